@@ -68,7 +68,7 @@ def run_c44(prop):
         cfg = "_rj.cfg"
         with open(os.path.join(SPEC, cfg), "w") as f:
             f.write(open(os.path.join(SPEC, "RestJson.cfg")).read().replace("Faithful = TRUE", "Faithful = " + faithful).replace("Width = 2", "Width = %d" % (2 if quick else 3)))
-        r = run_tlc(SPEC, "RestJson", cfg, "restjson", workers=4, timeout=3000)
+        r = run_tlc(SPEC, "RestJson", cfg, "restjson", workers=1, timeout=3000, java_opts="-Xss1g")
         os.remove(os.path.join(SPEC, cfg))
         if r.error:
             raise vlib.ToolError("RestJson(%s): %s" % (label, r.error))
